@@ -1,38 +1,23 @@
-import XyzModel.Gen.Default
-import XyzModel.Gen.DefaultNum
-import XyzModel.Gen.DefaultScript
-/-! GENERATED by harness/extract.py from the repository source — do not edit. -/
-namespace Gen
+/-!
+Last-good definitions of the C16 extraction anchors (harness/anchors_script.py; DESIGN.md Appendix D):
+the sixteen script-template constants of `xyzpy/gen/cropping.py` and the decision logic of `gen_cluster_script`
+(which ids, `run_start`/`run_stop`, which templates are concatenated, the single-mode "compute the ids in the job"
+override, the PBS size-1 rewrite).  These defaults describe the repaired tree (D9 fixed: no stray `]` in
+`tplSgeGrowPartial`).
 
-def nbFromBs (n batchsize : Int) : Int := ((n + batchsize - 1) / batchsize)
-def capNb (n numBatches : Int) : Int := (min n numBatches)
-def bsOfNb (n numBatches : Int) : Int := (n / numBatches)
-def remOfNb (n numBatches : Int) : Int := (n % numBatches)
-def bothOk (n batchsize posTot : Int) : Bool := (decide (n ≤ posTot) && decide (posTot < (n + batchsize)))
-def sowerGetsExtra (batchCounter remainder : Int) : Bool := (decide (batchCounter < remainder))
-def sowerFlush (counter batchsize : Int) (extraBatch : Bool) : Bool := (decide (counter = (batchsize + (if extraBatch then (1 : Int) else 0))))
-def isReady (numResults numSown : Int) : Bool := ((decide (numResults > (0 : Int))) && (decide (numResults = numSown)))
-def cleanUpDefault (cleanUpIsNone cleanUp allowIncomplete : Bool) : Bool := (if cleanUpIsNone then (!allowIncomplete) else cleanUp)
-def harvestDefersCleanup : Bool := true
-def samplesDefersCleanup : Bool := true
-def welfordCount (count : Int) : Int := (count + (1 : Int))
-def welfordMean (count mean M2 x : Rat) : Rat := (mean + ((x - mean) / (count + (1 : Rat))))
-def welfordM2 (count mean M2 x : Rat) : Rat := (M2 + ((x - mean) * (x - (mean + ((x - mean) / (count + (1 : Rat)))))))
-def statVar (M2 count : Rat) : Rat := (M2 / count)
-def convRhs (rtol mean atol : Rat) : Rat := ((rtol * (Rat.abs mean)) + atol)
-def covCount (count : Int) : Int := (count + (1 : Int))
-def covXmean (count xmean ymean C x y : Rat) : Rat := (xmean + ((x - xmean) / (count + (1 : Rat))))
-def covYmean (count xmean ymean C x y : Rat) : Rat := (ymean + ((y - ymean) / (count + (1 : Rat))))
-def covC (count xmean ymean C x y : Rat) : Rat := (C + ((x - xmean) * (y - (ymean + ((y - ymean) / (count + (1 : Rat)))))))
-def covCovar (C count : Rat) : Rat := (C / count)
-def covSample (C count : Rat) : Rat := (C / (count - (1 : Rat)))
-def repCheck (i minSamples : Int) : Bool := (decide (i > minSamples))
-def repRtol (rtol tolScale : Rat) : Rat := rtol
-def repAtol (rtol tolScale : Rat) : Rat := (tolScale * rtol)
-def repHitMax (i maxSamples : Int) : Bool := (decide (i ≥ (maxSamples - (1 : Int))))
-def fmtExp (xe ee : Int) : Int := (max xe (ee + (1 : Int)))
-def fmtHide (k : Int) (errLt : Bool) : Bool := (((decide (k = (0 : Int)) || decide (k = (-(1 : Int))))) || ((decide (k = (1 : Int))) && errLt))
-def fmtDigits (exponent : Int) : Int := (max ((1 : Int) - exponent) (0 : Int))
+Template text is written as a string literal and expanded to a `List Char` by `chars!` while the file is elaborated:
+evaluating `String.toList` on a 500-character literal costs the Lean 4.33 kernel about half a minute (strings are UTF-8
+byte arrays), a character list costs nothing.
+-/
+open Lean in
+/-- `chars! "abc"` = `['a', 'b', 'c']` -/
+macro "chars!" s:str : term => do
+  let elems : Array (TSyntax `term) :=
+    (s.getString.toList.map fun c => (⟨Syntax.mkCharLit c⟩ : TSyntax `term)).toArray
+  `([$elems,*])
+
+namespace Gen.Default
+
 def tplSgeHeader : List Char := chars! "#!/bin/bash -l\n#$ -S /bin/bash\n#$ -N {name}\n#$ -l h_rt={hours}:{minutes}:{seconds},mem={gigabytes}G\n#$ -l tmpfs={temp_gigabytes}G\nmkdir -p {output_directory}\n#$ -wd {output_directory}\n#$ -pe {pe} {num_procs}\n{header_options}\n"
 def tplSgeArrayHeader : List Char := chars! "#$ -t {run_start}-{run_stop}\n"
 def tplPbsHeader : List Char := chars! "#!/bin/bash -l\n#PBS -N {name}\n#PBS -lselect={num_nodes}:ncpus={num_procs}:mem={gigabytes}gb\n#PBS -lwalltime={hours:02}:{minutes:02}:{seconds:02}\n{header_options}\n"
@@ -61,4 +46,4 @@ def scriptSingleDynamicIds : List Char := chars! "crop.missing_results()"
 def scriptPbsRewrite (isPbs : Bool) (lenIds : Int) : Bool := (isPbs && (decide (lenIds = (1 : Int))))
 def scriptPbsReplacements : List (List Char × List Char) := [(chars! "#PBS -J 1-1\n", chars! ""), (chars! "$PBS_ARRAY_INDEX", chars! "1")]
 
-end Gen
+end Gen.Default
